@@ -36,13 +36,14 @@ func TestVerif_C25(t *testing.T) {
 // still fails with FBIG and leaves the file unchanged - also when it would shrink the file; a size
 // within the limit is accepted as without a limit.
 func vfC25OverLimitFile(rec *evid.Rec, ep int) {
+	vfC25Path = vfC25Names[ep%len(vfC25Names)]
 	rng := evid.Rng(2525, int64(ep))
 	m := []int64{100, 4096, 65537}[ep%3]
 	how := []string{"file-older-than-export", "UpdatePolicyOptions", "UpdateExportOptions"}[(ep/3)%3]
 	big := int(m)*3 + rng.Intn(50)
 	data := bytes.Repeat([]byte{7}, big)
 	fs := refs.New()
-	fs.PlantFile("/f", data, 0666, 0, 0)
+	fs.PlantFile(vfC25Path, data, 0666, 0, 0)
 	o := ExportOptions{AttrCacheTimeout: 1}
 	if how == "file-older-than-export" {
 		o.MaxFileSize = m
@@ -65,7 +66,7 @@ func vfC25OverLimitFile(rec *evid.Rec, ep int) {
 	}
 	c := srv.client()
 	root, _ := c.mnt("/")
-	l, _ := c.lookup(root, "f")
+	l, _ := c.lookup(root, vfC25Path[1:])
 	if l == nil || l.Status != 0 {
 		rec.Infra("lookup")
 		return
@@ -101,7 +102,7 @@ func vfC25OverLimitFile(rec *evid.Rec, ep int) {
 		if r.Status != 27 {
 			rec.Violate("C25/over-limit-not-FBIG/op=SETATTR/file-already-over-limit/"+rel, fmt.Sprintf("%s answered status %d, want NFS3ERR_FBIG", desc, r.Status), nil)
 		}
-		if b, _ := fs.Bytes("/f"); len(b) != cur {
+		if b, _ := fs.Bytes(vfC25Path); len(b) != cur {
 			rec.Violate("C25/refused-request-changed-file/file-already-over-limit", fmt.Sprintf("%s: the file is %d bytes now", desc, len(b)), nil)
 			cur = len(b)
 			if cur <= int(m) {
@@ -116,7 +117,12 @@ func vfC25OverLimitFile(rec *evid.Rec, ep int) {
 	}
 }
 
+// the file's name is nothing special to the limit: names that read like error messages included
+var vfC25Names = []string{"/f", "/resource limits", "/quota exceeded.bin", "/too many open files", "/no space left on device", "/file too large"}
+var vfC25Path = "/f"
+
 func vfC25Episode(rec *evid.Rec, ep int) {
+	vfC25Path = vfC25Names[(ep/2)%len(vfC25Names)]
 	rng := evid.Rng(25, int64(ep))
 	ms := []int64{1, 100, 4096, 65537}
 	m := ms[ep%4]
@@ -124,7 +130,7 @@ func vfC25Episode(rec *evid.Rec, ep int) {
 	mk := func(limit int64) (*vfSrv, *vfClient, uint64) {
 		fs := refs.New()
 		fs.MaxSize = 1 << 20
-		fs.PlantFile("/f", nil, 0666, 0, 0)
+		fs.PlantFile(vfC25Path, nil, 0666, 0, 0)
 		o := ExportOptions{AttrCacheTimeout: 1, TransferSize: 131072}
 		if how == "construction" {
 			o.MaxFileSize = limit
@@ -144,7 +150,7 @@ func vfC25Episode(rec *evid.Rec, ep int) {
 		}
 		c := s.client()
 		root, _ := c.mnt("/")
-		l, _ := c.lookup(root, "f")
+		l, _ := c.lookup(root, vfC25Path[1:])
 		if l == nil || l.Status != 0 {
 			return nil, nil, 0
 		}
@@ -332,16 +338,16 @@ func vfC25Episode(rec *evid.Rec, ep int) {
 			fail("C25/over-limit-request-reached-backend/op=any/around-limit", "the backend was asked for "+reached)
 			reached = ""
 		}
-		b, _ := lim.fs.Bytes("/f")
+		b, _ := lim.fs.Bytes(vfC25Path)
 		if int64(len(b)) > m {
 			fail("C25/file-larger-than-limit", fmt.Sprintf("backend file is %d bytes", len(b)))
 			// resync both sides and continue
-			lim.fs.PlantFile("/f", model, 0666, 0, 0)
+			lim.fs.PlantFile(vfC25Path, model, 0666, 0, 0)
 		} else if !bytes.Equal(b, model) {
 			fail("C25/refused-request-changed-file", fmt.Sprintf("backend %d bytes, model %d bytes", len(b), len(model)))
 			model = b
 		}
-		unl.fs.PlantFile("/f", model, 0666, 0, 0)
+		unl.fs.PlantFile(vfC25Path, model, 0666, 0, 0)
 	}
 	if ep < 2 {
 		rec.Sample(map[string]any{"m": m, "how": how, "ops": ops})
